@@ -86,17 +86,27 @@ Print Assumptions C14_source_literals_pinned.
 Theorem C14_document_matches_source_output_outside :
   forall st hdrs docfn excl follow base kind input_file,
     kind_distinct kind = true ->
-    PyWalkSource.document (PyWorld base kind None) docfn [] input_file (py_settings_of st hdrs excl follow)
+    PyWalkSource.document (PyWorld base kind None (fun _ => false)) docfn [] input_file (py_settings_of st hdrs excl follow)
     = Walk.document st hdrs docfn excl base kind.
 Proof. exact document_matches_source_output_outside. Qed.
 Print Assumptions C14_document_matches_source_output_outside.
 
 (* the same with the output directory anywhere: when it lies inside the input tree at position o it is
    pruned from the walk exactly like a directory the patterns exclude (repair of F29) *)
-Theorem C14_document_matches_source :
+Theorem C14_document_matches_source_no_links :
   forall st hdrs docfn excl follow base kind input_file o,
     kind_distinct kind = true -> out_consistent st o = true ->
-    PyWalkSource.document (PyWorld base kind o) docfn [] input_file (py_settings_of st hdrs excl follow)
+    PyWalkSource.document (PyWorld base kind o (fun _ => false)) docfn [] input_file (py_settings_of st hdrs excl follow)
     = Walk.document st hdrs docfn (excl_with_output excl o) base kind.
+Proof. exact document_matches_source_no_links. Qed.
+Print Assumptions C14_document_matches_source_no_links.
+
+(* ... and with symbolic links to directories in the tree (flagged by links): one that is not followed is
+   pruned like an excluded directory (repair of F30), a followed one is an ordinary directory *)
+Theorem C14_document_matches_source :
+  forall st hdrs docfn excl follow base kind input_file o links,
+    kind_distinct kind = true -> out_consistent st o = true ->
+    PyWalkSource.document (PyWorld base kind o links) docfn [] input_file (py_settings_of st hdrs excl follow)
+    = Walk.document st hdrs docfn (excl_with_output_links excl o follow links) base kind.
 Proof. exact document_matches_source. Qed.
 Print Assumptions C14_document_matches_source.
